@@ -19,7 +19,7 @@ from oracles import container
 
 ID = "C20"
 LEVEL = "fault_enumeration"
-RUN_TIMEOUT_S = 300
+RUN_TIMEOUT_S = 120
 RULE = (
     "each evaluation is one fault applied to one stored corpus image or one save: (a) a truncation length / byte flip / "
     "torn or zero-filled image / garbage image opened through TTFont (stream and path, lazy modes) with every table then "
@@ -41,7 +41,7 @@ EXPECTED_PROBES = ["a.TTLibError", "a.opened", "b.undecodable", "b.resaved_uncha
 SMALL = 8192
 
 TIERS = {
-    "quick": {"budget_s": 600, "determinism_sample": 12, "payload_faults": 6, "flip_variants": 4, "big_trunc_samples": 48, "n": {"payload": 1400, "torn": 400, "garbage": 300, "failsave": 700, "text": 1200}, "minimise_s": 45, "max_minimise": 3},
+    "quick": {"budget_s": 400, "determinism_sample": 12, "payload_faults": 6, "flip_variants": 4, "big_trunc_samples": 48, "n": {"payload": 1400, "torn": 400, "garbage": 300, "failsave": 700, "text": 1200}, "minimise_s": 45, "max_minimise": 3},
     "thorough": {"budget_s": 5400, "determinism_sample": 100, "payload_faults": 12, "flip_variants": 10, "big_trunc_samples": 400, "n": {"payload": 12000, "torn": 5000, "garbage": 3000, "failsave": 5000, "text": 20000}, "minimise_s": 120, "max_minimise": 6},
 }
 
@@ -290,7 +290,23 @@ def probe_open(image, how, lazy, scratch):
             os.unlink(path)
 
 
+def _tight_memory():
+    """Damaged counts make decoders build huge lists; the less they may build before MemoryError, the less
+    there is to unwind (a worker near 4 GB was seen to spend minutes in the allocator doing that)."""
+    try:
+        import resource
+
+        soft, hard = resource.getrlimit(resource.RLIMIT_AS)
+        want = 1280 * 1024 * 1024
+        if soft == resource.RLIM_INFINITY or soft > want:
+            resource.setrlimit(resource.RLIMIT_AS, (want, hard))
+    except Exception:
+        pass
+
+
 def execute(ctx, h):
+    if h.get("kind") in ("payload", "storage"):
+        _tight_memory()
     lvl = logging.root.manager.disable
     logging.disable(logging.CRITICAL)
     scratch = tempfile.mkdtemp(prefix="verif-c20-")
@@ -398,6 +414,43 @@ def exec_payload(ctx, h, scratch):
     return total
 
 
+def _cmap_bomb(data, limit=3_000_000):
+    """True when a format 12/13 subtable reachable from the encoding records has a group spanning more than
+    `limit` code points (read from the raw bytes, independently of the library)."""
+    try:
+        if len(data) < 4:
+            return False
+        n = struct.unpack_from(">H", data, 2)[0]
+        for i in range(min(n, 64)):
+            if 4 + 8 * i + 8 > len(data):
+                break
+            off = struct.unpack_from(">L", data, 4 + 8 * i + 4)[0]
+            if off + 16 > len(data):
+                continue
+            fmt = struct.unpack_from(">H", data, off)[0]
+            if fmt in (12, 13):
+                ng = struct.unpack_from(">L", data, off + 12)[0]
+                total = 0
+                for g in range(min(ng, (len(data) - off - 16) // 12)):
+                    a, b, _gid = struct.unpack_from(">LLL", data, off + 16 + 12 * g)
+                    if b >= a:
+                        total += b - a + 1
+                    if total > limit:
+                        return True
+            elif fmt == 8 and off + 8208 + 4 <= len(data):
+                ng = struct.unpack_from(">L", data, off + 8204)[0]
+                total = 0
+                for g in range(min(ng, (len(data) - off - 8208) // 12)):
+                    a, b, _gid = struct.unpack_from(">LLL", data, off + 8208 + 12 * g)
+                    if b >= a:
+                        total += b - a + 1
+                    if total > limit:
+                        return True
+    except struct.error:
+        return False
+    return False
+
+
 def _exec_payload_one(ctx, h, scratch):
     from fontTools.ttLib import TTFont
 
@@ -420,6 +473,14 @@ def _exec_payload_one(ctx, h, scratch):
     # what is actually stored (the re-packer owns head.checkSumAdjustment)
     bad = container.tables_of(img)[tag]
     faults["payload." + h["fault"]] = 1
+    if tag == "cmap" and _cmap_bomb(bad):
+        # a segmented-coverage subtable (format 12/13) whose damaged group claims millions of code points:
+        # the decoder materialises them all (gigabytes, inside C calls no alarm interrupts; a worker at the
+        # address-space limit was seen to wedge for minutes). A weakness on hostile input, outside this
+        # clause's text; recognised from the raw bytes and not run.
+        probes["b.cmap_range_bomb_skipped"] = 1
+        events.append([h["font"], tag, h["fault"], "resource-limit"])
+        return res
     # is it undecodable? (strict open, same lazy mode)
     undecodable = None
     from sim.runner import time_limit, RunTimeout
@@ -708,6 +769,10 @@ def exec_failsave(ctx, h, scratch):
 
 
 class _Skip(Exception):
+    pass
+
+
+class HarnessFault(Exception):
     pass
 
 
